@@ -25,8 +25,8 @@ EXHAUSTIVE = {
     "thorough": "all 10^6 all-digit SEDOL bases; all 10^8 all-digit CUSIP bases; all 676 two-letter ISIN prefixes x one 10^4 block",
 }
 MIN_COUNTERS = {
-    "quick": {"sedol_digit_bases": 10**6, "cusip_digit_bases": 10**6, "isin_prefixes_unknown": 600, "padded_ids": 50000, "malformed_calls_interleaved": 1500},
-    "thorough": {"sedol_digit_bases": 10**6, "cusip_digit_bases": 10**8, "isin_prefixes_unknown": 600, "padded_ids": 50000, "malformed_calls_interleaved": 1500},
+    "quick": {"sedol_digit_bases": 10**6, "cusip_digit_bases": 10**6, "isin_prefixes_unknown": 500, "padded_ids": 50000, "malformed_calls_interleaved": 1500},
+    "thorough": {"sedol_digit_bases": 10**6, "cusip_digit_bases": 10**8, "isin_prefixes_unknown": 500, "padded_ids": 50000, "malformed_calls_interleaved": 1500},
 }
 CHECKCHARS = "0123456789ABCDEFGHIJKLMNOPQRSTUVWXYZ"
 # one extra character that validators built on regexes or int()/strip() tend to swallow
